@@ -76,7 +76,15 @@ func bookReportsReplay(e *env) error {
 		}
 		site := "cmd/hranoprovod-cli/internal/csv"
 		// ---- csv database: raw entries in file order ----
+		traceIt := e.tr != nil && (idx/stride)%e.argInt("trace_every", 4) == 0
 		if out, ok := x.run("csv", "database"); ok {
+			if traceIt {
+				want := [][2][]int{}
+				for _, rr := range rawRows {
+					want = append(want, [2][]int{codePoints(rr.rec), codePoints(rr.name)})
+				}
+				e.emitCsvTrace("database", 2, out, want)
+			}
 			recs, err := parseCSVStrict(out)
 			switch {
 			case err != nil:
@@ -150,6 +158,13 @@ func bookReportsReplay(e *env) error {
 				want = append(want, resRow{names[r.Name], names[el[0]], int64(float64(el[1]) * unit * 1000)})
 			}
 		}
+		if traceIt {
+			wr := [][2][]int{}
+			for _, r := range want {
+				wr = append(wr, [2][]int{codePoints(r.rec), codePoints(r.el)})
+			}
+			e.emitCsvTrace("resolved", 2, out.buf.String(), wr)
+		}
 		recs, err := parseCSVStrict(out.buf.String())
 		if err != nil {
 			x.bad("csv-invalid", site, "csv database-resolved is not valid RFC 4180: "+err.Error())
@@ -202,9 +217,23 @@ func bookReportsReplay(e *env) error {
 					continue
 				}
 				rows, err := parseNumTabName(o)
+				// the same rows, ordered by amount in the requested direction; the order among equal amounts is
+				// fixed by no property (only that it is the same on every run: C05) and is not compared
 				same := err == nil && len(rows) == len(exp)
+				cnt := map[regIngr]int{}
+				for _, r := range exp {
+					cnt[r]++
+				}
 				for i := 0; same && i < len(rows); i++ {
-					same = rows[i] == exp[i]
+					cnt[rows[i]]--
+					if i > 0 && ((!desc && rows[i].Val < rows[i-1].Val) || (desc && rows[i].Val > rows[i-1].Val)) {
+						same = false
+					}
+				}
+				for _, v := range cnt {
+					if v != 0 {
+						same = false
+					}
 				}
 				if !same {
 					x.bad("element-total-differs-from-resolved-csv", "cmd/hranoprovod-cli/internal/report", fmt.Sprintf("%v prints %+v (err %v); the rows of csv database-resolved with that element are %+v", a, rows, err, exp))
